@@ -9,12 +9,12 @@ from .common import mk_container
 
 PROPERTY = 'C05'
 BOUNDS = ("Container.create_solution with 1-2 (thorough: 3) solutes out of {NaCl, Na2SO4, DMSO, lipase}, solvent = water, "
-          "DMSO, or a container holding water+triethylamine or water+NaCl+amylase (symbolic amounts); any two of concentration / quantity / total "
+          "DMSO, or a container holding water+triethylamine, water+NaCl+amylase or water+NaCl with NaCl also the solute (symbolic amounts); any two of concentration / quantity / total "
           "quantity; scalar and per-solute lists (also with different units per solute); concentration spellings M, m, "
           "g/L, mg/g, mol/mol, mL/L, umol/mL, mmol/kg, %w/w, %w/v, %v/v, U/mL, U/g, kU/L, g/mol; quantity units g, mg, mL, "
           "mmol, U; total in mL, g, mol. Every value symbolic (concentrations in [1e-6, 1e4], quantities in [1e-6, 1e5]) "
           "so both sides of feasibility are explored. Lite rounding model; numpy.linalg.solve = exact contract.")
-OUTSIDE = ("IEEE rounding and LAPACK error; solutes that are also present in the solvent container; more than 3 solutes; "
+OUTSIDE = ("IEEE rounding and LAPACK error; more than 3 solutes; "
            "over-determined requests are explored for 2 solutes only (the library accepts residuals <= 1e-6, and so does "
            "the oracle).")
 ASSUMPTIONS = ["numpy.linalg.solve replaced by: singular -> LinAlgError, otherwise the unique solution (Cramer's rule)",
@@ -22,6 +22,7 @@ ASSUMPTIONS = ["numpy.linalg.solve replaced by: singular -> LinAlgError, otherwi
 EXPECT_OUTCOMES = ['ok', 'refused']
 
 CONTAINER_SOLVENT = ['water', 'triethylamine']
+SALTY_SOLVENT = ['water', 'NaCl']                     # a solvent container that already holds some of the solute
 BRINE_SOLVENT = ['water', 'NaCl', 'amylase']          # a liquid, a dissolved solid and an enzyme
 
 
@@ -83,6 +84,12 @@ def cells(tier, seed):
     out.append(_cell(i, ['lipase'], 'water', ['quantity', 'total_quantity'], qu='U', tu='mol')); i += 1
     out.append(_cell(i, ['NaCl', 'lipase'], 'water', ['concentration', 'total_quantity'], cu=['M', 'U/mL'], tu='mol')); i += 1
     out.append(_cell(i, ['NaCl'], 'container', ['concentration', 'total_quantity'], cu='M', tu='mol')); i += 1
+    # a solvent container that already holds some of the solute (the solution must still have the stated concentration)
+    for cu, tu in [('M', 'mL'), ('mg/g', 'g'), ('mol/mol', 'mL')]:
+        out.append(_cell(i, ['NaCl'], 'salty', ['concentration', 'total_quantity'], cu=cu, tu=tu)); i += 1
+    out.append(_cell(i, ['NaCl'], 'salty', ['quantity', 'total_quantity'], qu='g', tu='mL')); i += 1
+    out.append(_cell(i, ['NaCl'], 'salty', ['concentration', 'quantity'], cu='M', qu='mmol')); i += 1
+    out.append(_cell(i, ['NaCl', 'Na2SO4'], 'salty', ['concentration', 'total_quantity'], cu='M', tu='mL')); i += 1
     # a solvent container that holds a dissolved solid (brine) / an enzyme
     for sol, cu, tu in [(['DMSO'], 'M', 'mL'), (['DMSO'], 'mg/g', 'g'), (['DMSO'], 'mmol/kg', 'g'), (['lipase'], 'U/mL', 'mL')]:
         out.append(_cell(i, sol, 'brine', ['concentration', 'total_quantity'], cu=cu, tu=tu)); i += 1
@@ -138,8 +145,8 @@ def h_solution(h):
     C = h.env.Container
     solutes_n = p['solutes']
     n = len(solutes_n)
-    container_solvent = p['solvent'] in ('container', 'brine')
-    comp_names = BRINE_SOLVENT if p['solvent'] == 'brine' else CONTAINER_SOLVENT
+    container_solvent = p['solvent'] in ('container', 'brine', 'salty')
+    comp_names = {'brine': BRINE_SOLVENT, 'salty': SALTY_SOLVENT}.get(p['solvent'], CONTAINER_SOLVENT)
     names = set(solutes_n) | (set(comp_names) if container_solvent else {p['solvent']})
     lib = Lib(h, names)
     solutes = [lib[s] for s in solutes_n]
@@ -175,6 +182,9 @@ def h_solution(h):
             den = [lib.amount(solutes[k], Fr(1), db) for k in range(n)] + [solvent_per_unknown(db)]
             row = [-(cvals[i] * den[k]) for k in range(n + 1)]
             row[i] = row[i] + scale * lib.amount(solutes[i], Fr(1), nb)
+            if container_solvent and solutes[i] in solv_comp:
+                # the solvent aliquot brings some of the solute along
+                row[n] = row[n] + scale * lib.amount(solutes[i], solv_comp[solutes[i]], nb)
             rows.append(row)
             rhs.append(0)
             row_labels.append(('concentration', i, cus[i]))
@@ -190,6 +200,8 @@ def h_solution(h):
             pf, qb = split_unit(qus[i])
             row = [0] * (n + 1)
             row[i] = lib.amount(solutes[i], Fr(1), qb)
+            if container_solvent and solutes[i] in solv_comp:
+                row[n] = lib.amount(solutes[i], solv_comp[solutes[i]], qb)     # (the stated quantity is what the solution holds)
             rows.append(row)
             rhs.append(qvals[i] * PREFIX[pf])
             row_labels.append(('quantity', i, qus[i]))
@@ -270,7 +282,11 @@ def h_solution(h):
                       detail=f"total quantity in {unit}")
     if container_solvent:
         # solvent part is a uniform aliquot of the container; nothing is lost
-        comps = list(solv_comp)
+        comps = [s_ for s_ in solv_comp if s_ not in solutes]
+        for s_ in solutes:
+            if s_ in solv_comp:
+                h.require('solvent-conserved', h.ge(rest.contents.get(s_, 0) + sol.contents.get(s_, 0), solv_comp[s_], h.rs(4 * h.ulp)),
+                          detail=f"{s_.name}: nothing of what the solvent container held is lost")
         for a_i in range(len(comps)):
             for b_i in range(a_i + 1, len(comps)):
                 sa, sb = comps[a_i], comps[b_i]
@@ -280,4 +296,4 @@ def h_solution(h):
         for s_ in comps:
             h.require('solvent-conserved', h.eq(rest.contents.get(s_, 0) + sol.contents.get(s_, 0), solv_comp[s_], h.rs(4 * h.ulp)),
                       detail=f"{s_.name}: depleted container + solution = original container")
-        h.require('solvent-container-keys', h.true(set(rest.contents) == set(comps)))
+        h.require('solvent-container-keys', h.true(set(rest.contents) == set(solv_comp)))
